@@ -47,13 +47,15 @@ func NewTCPGroupCtl(portManager *ports.Manager) *TCPGroupCtl {
 func (tgc *TCPGroupCtl) Listen(proxyName string, group string, groupKey string,
 	addr string, port int,
 ) (l net.Listener, realPort int, err error) {
+	// The controller lock is held until the proxy has joined, so that the group found here cannot be
+	// emptied and removed by the last leave in between (see CloseListener).
 	tgc.mu.Lock()
+	defer tgc.mu.Unlock()
 	tcpGroup, ok := tgc.groups[group]
 	if !ok {
 		tcpGroup = NewTCPGroup(tgc)
 		tgc.groups[group] = tcpGroup
 	}
-	tgc.mu.Unlock()
 	verifhook.At("group.tcp.after_lookup", proxyName)
 
 	return tcpGroup.Listen(proxyName, group, groupKey, addr, port)
@@ -165,6 +167,9 @@ func (tg *TCPGroup) Accept() <-chan net.Conn {
 
 // CloseListener remove the TCPGroupListener from the TCPGroup
 func (tg *TCPGroup) CloseListener(ln *TCPGroupListener) {
+	// lock order: controller, then group (as in TCPGroupCtl.Listen)
+	tg.ctl.mu.Lock()
+	defer tg.ctl.mu.Unlock()
 	tg.mu.Lock()
 	defer tg.mu.Unlock()
 	for i, tmpLn := range tg.lns {
@@ -177,7 +182,7 @@ func (tg *TCPGroup) CloseListener(ln *TCPGroupListener) {
 		close(tg.acceptCh)
 		tg.tcpLn.Close()
 		tg.ctl.portManager.Release(tg.realPort)
-		tg.ctl.RemoveGroup(tg.group)
+		delete(tg.ctl.groups, tg.group)
 	}
 }
 
